@@ -1,6 +1,7 @@
 package main
 
 import (
+	"bytes"
 	"context"
 	"fmt"
 	"io"
@@ -25,6 +26,29 @@ func c13Gen(r *rng, depth int, tagN *int, fixedOnce bool) c13Term {
 		n := next()
 		switch r.intn(5) {
 		case 0:
+			if n%2 == 0 {
+				// a hand-written component with the same meaning as tmpl.Use that renders its block into a writer of its own
+				// FIRST and copies the result into place: the block must write to the writer it is given
+				return c13Term{fmt.Sprintf("U%d", n), func(map[int]*templ.OnceHandle) templ.Component {
+					return templ.ComponentFunc(func(ctx context.Context, w io.Writer) error {
+						children := templ.GetChildren(ctx)
+						ctx = templ.ClearChildren(ctx)
+						var own bytes.Buffer
+						cerr := children.Render(ctx, &own)
+						if _, err := fmt.Fprintf(w, "<use id=\"%d\">", n); err != nil {
+							return err
+						}
+						if _, err := w.Write(own.Bytes()); err != nil {
+							return err
+						}
+						if cerr != nil {
+							return cerr
+						}
+						_, err := io.WriteString(w, "</use>")
+						return err
+					})
+				}, 1}
+			}
 			return c13Term{fmt.Sprintf("U%d", n), func(map[int]*templ.OnceHandle) templ.Component { return tmpl.Use(fmt.Sprint(n)) }, 1}
 		case 1:
 			return c13Term{fmt.Sprintf("I%d", n), func(map[int]*templ.OnceHandle) templ.Component { return tmpl.Ignore(fmt.Sprint(n)) }, 1}
@@ -115,6 +139,49 @@ func runC13(e *emitter, tier string, seed uint64) {
 			out = "ERR:" + err.Error()
 		}
 		e.emit(t.enc, "tree", t.enc, hx(c13Canon(out)))
+	}
+	// a block that is a single call: the call's arguments are evaluated when - and as often as - the callee renders its
+	// slot, in the caller's scope
+	callees := []struct {
+		name string
+		mk   func() templ.Component
+	}{
+		{"ignore", func() templ.Component { return tmpl.Ignore("1") }}, {"use", func() templ.Component { return tmpl.Use("1") }},
+		{"twice", func() templ.Component { return tmpl.Twice("1") }}, {"forward-use", func() templ.Component { return tmpl.Forward(tmpl.Use("1")) }},
+		{"forward-ignore", func() templ.Component { return tmpl.Forward(tmpl.Ignore("1")) }}, {"noblock-use", func() templ.Component { return tmpl.CallNoBlock(tmpl.Use("1")) }},
+		{"hand-ignore", func() templ.Component {
+			return templ.ComponentFunc(func(ctx context.Context, w io.Writer) error { _, err := io.WriteString(w, "<hand>"); return err })
+		}},
+		{"hand-thrice", func() templ.Component {
+			return templ.ComponentFunc(func(ctx context.Context, w io.Writer) error {
+				c := templ.GetChildren(ctx)
+				ctx = templ.ClearChildren(ctx)
+				for i := 0; i < 3; i++ {
+					if err := c.Render(ctx, w); err != nil {
+						return err
+					}
+				}
+				return nil
+			})
+		}},
+		{"twice-in-twice", func() templ.Component { return tmpl.CallWithBlock(tmpl.Twice("2"), "m", tmpl.Twice("3")) }},
+	}
+	for _, c := range callees {
+		if !e.mine("evalcount " + c.name) {
+			continue
+		}
+		calls := 0
+		f := func() templ.Component {
+			calls++
+			return templ.Raw(fmt.Sprintf("<ev%d>", calls))
+		}
+		var sb strings.Builder
+		err := tmpl.SingleCallBlock(c.mk(), f).Render(templ.InitializeContext(context.Background()), &sb)
+		out := sb.String()
+		if err != nil {
+			out = "ERR:" + err.Error()
+		}
+		e.emit("evalcount "+c.name, "evalcount", c.name, fmt.Sprint(calls), hx(c13Canon(out)))
 	}
 	// the four shapes that leaked before the repair, and the basic ones
 	fixed := []string{}
